@@ -245,6 +245,9 @@ def fixed_cases(term):
         ('fx', [(9, t, 50), (5, t, 9, 0), (3, t, 0), (2, t), (2, t)]),
         ('fx', [(3, t, 0), (5, t, 9, 0), (9, t, 50), (2, t)]),                                              # armed first: dies on the first
         ('fx', [(9, 10, 50), (9, 10, 51), (4, 10, NB, 7), (8, 10, 52), (2, 10), (1, NB, 0), (2, 10)]),      # two re-raisers: one pending delivery
+        # an older action of the signal is removed: the order of the remaining ones (shutdown before its arming flag) stays
+        ('fx', [(8, t, 60), (5, t, 9, 0), (3, t, 0), (7, 0), (2, t), (2, t)]),
+        ('fx', [(8, t, 60), (8, t, 61), (5, t, 9, 0), (3, t, 0), (8, t, 62), (7, 1), (2, t), (7, 0), (2, t)]),
     ]
 
 
